@@ -163,6 +163,7 @@ func NewEngine(prog *ssa.Program, cfg Config, s *Solver) *Engine {
 	e.sha1Memo = map[string]*Term{}
 	e.natives = map[string]nativeFn{}
 	registerNatives(e)
+	registerBinaryNatives(e)
 	for k, v := range sha1Natives {
 		e.natives[k] = v
 	}
